@@ -3,7 +3,7 @@
 
 namespace hz {
 static const Info I = {
-    "C07", 1, 60, 400000, true, true,
+    "C07", 1, 60, 60000, true, true,
     "rapidcheck generates (program bytes, schedule bytes, fault bytes); the program decodes to 2..4 contenders "
     "(coroutine or thread flavour), 1..3 rounds each of {co_await lock, lock().wait(), manual subscribe, try_lock} x "
     "{release discarded, ownership destroyed, co_await release / kept suspend point, release on a helper thread} with harness yield points; "
